@@ -55,7 +55,11 @@ func (s *Sim) checkCommitted(b *blockObs, v *View, d *Dump) {
 		}
 	}
 	if pool := v.ModuleBalance(nodesTypes.StakedPoolName); !pool.Equal(nodeSum) {
-		s.violate("C19", "node-pool-vs-stakes", "committed", fmt.Sprintf("height %d: node staking pool holds %s, staked+unstaking nodes hold %s", h, pool, nodeSum))
+		subject := "committed"
+		if sent, ok := s.sentToModule[nodesTypes.StakedPoolName]; ok && pool.Equal(nodeSum.Add(sent)) {
+			subject = "pool-exceeds-stakes-by-what-was-sent-to-its-address"
+		}
+		s.violate("C19", "node-pool-vs-stakes", subject, fmt.Sprintf("height %d: node staking pool holds %s, staked+unstaking nodes hold %s (sent to the pool's address by plain sends: %v)", h, pool, nodeSum, s.sentToModule[nodesTypes.StakedPoolName]))
 	}
 	// C20
 	appSum := sdk.ZeroInt()
@@ -65,7 +69,11 @@ func (s *Sim) checkCommitted(b *blockObs, v *View, d *Dump) {
 		}
 	}
 	if pool := v.ModuleBalance(appsTypes.StakedPoolName); !pool.Equal(appSum) {
-		s.violate("C20", "app-pool-vs-stakes", "committed", fmt.Sprintf("height %d: application staking pool holds %s, staked+unstaking applications hold %s", h, pool, appSum))
+		subject := "committed"
+		if sent, ok := s.sentToModule[appsTypes.StakedPoolName]; ok && pool.Equal(appSum.Add(sent)) {
+			subject = "pool-exceeds-stakes-by-what-was-sent-to-its-address"
+		}
+		s.violate("C20", "app-pool-vs-stakes", subject, fmt.Sprintf("height %d: application staking pool holds %s, staked+unstaking applications hold %s (sent to the pool's address by plain sends: %v)", h, pool, appSum, s.sentToModule[appsTypes.StakedPoolName]))
 	}
 	s.checkNodeIndexes(v, d)
 	s.res.Case(fmt.Sprintf("committed/nodes=%d/apps=%d/jailed=%d/unstaking=%d", len(v.Validators), len(v.Apps), countVals(v, func(x nodesTypes.Validator) bool { return x.Jailed }), countVals(v, func(x nodesTypes.Validator) bool { return x.Status == sdk.Unstaking })))
